@@ -359,7 +359,7 @@ def check_no_hidden_state(r, rule, roots, allowed=(("pyrepseq.nn._to_triplets", 
     return len(reach)
 
 
-DROP_METHODS = {"dropna", "drop_duplicates", "drop", "query", "head", "tail", "nlargest", "nsmallest", "truncate"}
+DROP_METHODS = {"dropna", "drop_duplicates", "drop", "query", "head", "tail", "nlargest", "nsmallest", "truncate", "filter", "sample"}
 
 
 def check_no_dropping(r, rule, qualnames, what):
@@ -408,7 +408,10 @@ def check_no_dropping(r, rule, qualnames, what):
                 mask = head(idx) == "cmp" and idx[1] in ("<", "<=", ">", ">=", "!=", "==") or (head(idx) == "un" and idx[1] in ("~", "not")) or (head(idx) == "bin" and idx[1] in ("&", "|"))
                 # (elements selected by a test of their own values: x[x < c], x[~np.isnan(x)]; a mask computed from something else -
                 # positions of twins in a sorted pool, an intersect1d index - picks, it does not thin out the sample)
-                if mask and any(x[0] in ("param", "lparam") for x in walk(e["obj"])) and any(x == strip_all(e["obj"]) for x in walk(idx)):
+                # an array of multiplicities / bin counts is an aggregate, not the sample: thinning it out (counts[counts > 1]) is judged by the value comparison
+                aggregate = any(x[0] == "call" and ((head(strip(x[1])) == "glob" and strip(x[1])[1] in ("numpy.unique", "numpy.bincount", "numpy.histogram", "collections.Counter"))
+                                                    or (head(strip(x[1])) == "attr" and strip(x[1])[2] in ("value_counts", "groupby", "size", "count"))) for x in walk(strip_all(e["obj"])))
+                if mask and not aggregate and any(x[0] in ("param", "lparam") for x in walk(e["obj"])) and any(x == strip_all(e["obj"]) for x in walk(idx)):
                     key = (q, "mask", getattr(e.node, "lineno", 0))
                     if key not in seen:
                         seen.add(key)
